@@ -238,7 +238,7 @@ def restore_requests(log, under_lock):
     parent = {}
     lrefs = {}
     for e in log:
-        if e[0] == 'job_start':
+        if e[0] in ('job_submit', 'job_start'):      # submitted jobs count even if they are cancelled before they start
             key = e[1]
             if key[0] == 'W' and key not in wjobs:
                 wjobs[key] = len(wjobs)
